@@ -26,6 +26,7 @@ MANIFEST = dict(
     design="§7 C05")
 KNOWN_REBASE = "ParentRuleRebase"
 
+FILE_LIKE = ("f", "fifo", "rlf", "chr")        # command-line paths that are not directories
 SRC = ["rg", "ig", "gi", "ex"]                      # per-directory sources, in precedence order
 SRC_FILE = {"rg": ".rgignore", "ig": ".ignore", "gi": ".gitignore"}
 FILE_NAMES = ["a", "b", "x.rs", "y.py", "a.rs", "b.txt", ".h", ".hid.", "c.", "n.rs.", "..x", "d", ".e.py"]
@@ -199,6 +200,20 @@ def gen_case(rng, idx):
         roots.append(gen_dir(rng, "r2", 1, b2, p_src, p_git))
         if rng.random() < 0.7:
             roots.append(dict(name=rng.choice(["f0", ".f0", "f0.rs"]), kind="f"))
+        # explicitly named paths of other kinds, with names that rules / hidden / type filters would exclude
+        if rng.random() < 0.6:
+            for kind in rng.sample(["fifo", "rlf", "rld", "chr"], rng.randint(1, 2)):
+                nm = rng.choice([".p", "p.rs", "q.py", "a", "b.txt", "zz"])
+                if any(r["name"] == nm for r in roots):
+                    continue
+                if kind == "fifo":
+                    roots.append(dict(name=nm, kind="fifo"))
+                elif kind == "rlf":
+                    roots.append(dict(name=nm, kind="rlf", target_rel="tgt-" + nm.strip(".") + ".txt"))
+                elif kind == "rld":
+                    roots.append(dict(name=nm, kind="rld", target=gen_dir(rng, "r3-" + nm.strip("."), 1, [5], p_src, p_git)))
+                else:
+                    roots.append(dict(name="/dev/null", kind="chr"))
     c["roots"] = roots
     c["layout"] = layout
     if layout == "in":
@@ -206,8 +221,8 @@ def gen_case(rng, idx):
         c["spell"] = [rng.choice([None, None, ".", "./"])]
     elif layout in ("up0", "multi"):
         c["cwd"] = "up1/up0"
-        c["spell"] = [rng.choice(["%s", "./%s", "%s/"]) % r["name"] if r["kind"] == "d" else
-                      rng.choice(["%s", "./%s"]) % r["name"] for r in roots]
+        c["spell"] = [rng.choice(["%s", "./%s", "%s/"]) % r["name"] if r["kind"] in ("d", "rld") else
+                      (r["name"] if r["kind"] == "chr" else rng.choice(["%s", "./%s"]) % r["name"]) for r in roots]
     elif layout == "case":
         c["cwd"] = "."
         c["spell"] = ["up1/up0/r"]
@@ -294,9 +309,12 @@ def model_line(c, base):
     roots = []
     for r, sp in zip(c["roots"], c["spell"]):
         spelled = "./" if sp is None else sp.replace("ABS", base)
-        if r["kind"] == "f":
+        if r["kind"] in FILE_LIKE:
             roots.append(vlist(["0", vbytes(spelled)]))
             continue
+        if r["kind"] == "rld":
+            # a link to a directory named on the command line: the walker canonicalises it for the parents
+            r = dict(r["target"])
         canon = os.path.normpath(os.path.join(base, "up1/up0", r["name"]))
         above = []
         # from the file system root downward; directories outside the case carry nothing
@@ -361,7 +379,23 @@ def build_case(c, base):
     materialise(up1, c["above"][0])
     materialise(up0, c["above"][1])
     for r in c["roots"]:
-        materialise(os.path.join(up0, r["name"]), r)
+        p = os.path.join(up0, r["name"])
+        if r["kind"] == "fifo":
+            try:
+                os.mkfifo(p)
+            except (OSError, AttributeError):
+                open(p, "w").close()        # no named pipes here: an ordinary file, still an explicit path
+        elif r["kind"] == "rlf":
+            with open(os.path.join(up0, r["target_rel"]), "w") as f:
+                f.write("x\n")
+            os.symlink(r["target_rel"], p)
+        elif r["kind"] == "rld":
+            materialise(os.path.join(up0, r["target"]["name"]), r["target"])
+            os.symlink(r["target"]["name"], p)
+        elif r["kind"] == "chr":
+            pass
+        else:
+            materialise(p, r)
     os.makedirs(os.path.join(base, "xdg", "git"), exist_ok=True)
     with open(os.path.join(base, "xdg", "git", "ignore"), "w") as f:
         f.write(rules_text(c["global"]))
@@ -376,8 +410,13 @@ def run_rg(c, base):
     env["HOME"] = os.path.join(base, "xdg", "nohome")
     env.pop("RIPGREP_CONFIG_PATH", None)
     cwd = os.path.normpath(os.path.join(base, c["cwd"]))
-    p = subprocess.run([vlib.RG, "--no-config", "--files", "--no-messages"] + rg_args(c, base), cwd=cwd, env=env,
-                       stdin=subprocess.DEVNULL, stdout=subprocess.PIPE, stderr=subprocess.PIPE)
+    try:
+        # --files never opens a haystack (a FIFO named on the command line is listed, not read); the timeout is a
+        # safety net only
+        p = subprocess.run([vlib.RG, "--no-config", "--files", "--no-messages"] + rg_args(c, base), cwd=cwd, env=env,
+                           stdin=subprocess.DEVNULL, stdout=subprocess.PIPE, stderr=subprocess.PIPE, timeout=300)
+    except subprocess.TimeoutExpired:
+        return None, "TIMEOUT"
     if p.returncode not in (0, 1):
         return None, p.stderr.decode("utf-8", "replace")
     return norm_paths(p.stdout.decode("utf-8", "surrogateescape").split("\n"), cwd, base), ""
@@ -485,14 +524,19 @@ def o_decide(c, fl, chain, n_above, comps, is_dir):
     return False
 
 
-def oracle(c):
+def oracle(c, base="/"):
     fl = o_flags(c)
     out = []
     for r in c["roots"]:
         rp = "up1/up0/" + r["name"]
-        if r["kind"] == "f":
-            out.append(rp)          # named on the command line: always searched
+        if r["kind"] == "chr":
+            out.append(os.path.relpath(r["name"], base))
             continue
+        if r["kind"] in FILE_LIKE:
+            out.append(rp)          # named on the command line, not a directory: always searched, whatever it is
+            continue
+        if r["kind"] == "rld":
+            r = r["target"]         # listed through the link's name, rules of the target directory
         chain = [c["above"][0], c["above"][1], r]
 
         def rec(node, chain, comps, depth, path):
@@ -576,8 +620,11 @@ def features(c):
     for r in c["roots"]:
         if r["kind"] == "d":
             rec(r, 0)
+        elif r["kind"] == "rld":
+            f.append("root:symlink-to-dir")
+            rec(r["target"], 0)
         else:
-            f.append("root:file")
+            f.append("root:" + {"f": "file", "fifo": "fifo", "rlf": "symlink-to-file", "chr": "char-device"}[r["kind"]])
     if c["globs"]:
         f.append("-g")
     if c["types"]:
@@ -605,7 +652,7 @@ def check_cases(ctx, cases, base0, stats):
     for c, base, line, mo in zip(cases, bases, lines, mouts):
         cwd = os.path.normpath(os.path.join(base, c["cwd"]))
         rg, err = run_rg(c, base)
-        ora = oracle(c)
+        ora = oracle(c, base)
         if mo.startswith(("MISSING", "STACK", "PARSEFAIL")):
             ctx.violation("model run failed: " + mo, dict(case=c, line=line), nfi=True)
             continue
@@ -616,6 +663,9 @@ def check_cases(ctx, cases, base0, stats):
             stats[f] = stats.get(f, 0) + 1
         nontrivial = rg is not None and len(rg) > 0 and len([f for f in fs if ":" in f and not f.startswith(("layout", "spell"))]) > 0
         ctx.note_case(line, nontrivial)
+        if rg is None and err == "TIMEOUT":
+            ctx.notes.append("rg --files did not finish within 300 s (machine load?); case skipped: %r" % (rg_args(c, base),))
+            continue
         if rg is None:
             ctx.violation("rg --files failed: " + err[:300], dict(case=c, args=rg_args(c, base)), nfi=True)
             continue
@@ -627,7 +677,8 @@ def check_cases(ctx, cases, base0, stats):
             if in_rebase_class(c, diff) and model == rg:
                 ctx.known(KNOWN_REBASE, "args=%r cwd=%s differing=%r" % (rg_args(c, base), c["cwd"], diff))
             else:
-                ctx.violation("rg --files differs from the documented precedence of filters on: %r" % diff[:6],
+                ctx.violation("rg --files differs from the documented precedence of filters on: %r; command: cd %s && rg --files %s"
+                              % (diff[:6], c["cwd"], " ".join(a.replace(base, "$CASE") for a in rg_args(c, base))),
                               dict(kind=501, case=c, args=rg_args(c, base), rg=rg, oracle=ora, model=model, line=line))
         if model != rg:
             diff = sorted(set(model) ^ set(rg))
